@@ -11,6 +11,7 @@
 -/
 import ICal.Lemmas.Tz
 import ICal.Lemmas.TzMore
+import ICal.Lemmas.BodiesTz
 namespace ICal.C12
 open ICal.Tz
 
@@ -456,5 +457,14 @@ example : WellSeparated cetPair := by decide
 example : (specAt cetPair 960000000).map (fun b => b.2.name) = some ['C', 'E', 'S', 'T'] := by decide
 example : vtzBeforeUse [Item.vtz XA 1, .use XA] [] [Item.vtz XA 1, .use XA] = true ∧
     freshFor P0 ([] : Cache Nat) [Item.vtz XA 1, .use XA] = true := by decide
+
+/-- wave 8 (tools/py2lean.py, Gen/BodiesTz.lean): the second half of `Timezone.get_transitions` - everything after
+    `transitions.sort()`: `transition_times`, the loop over `enumerate(transitions)` with the searches backwards and
+    forwards by index, `if not dst_offset` (true for `False` and for `timedelta(0)`), `assert dst_offset is not False` -
+    regenerated from the source and run on the model's sorted transitions with the model's `dst` is the model's `infoGo`:
+    the same rows, and AssertionError exactly where the model has none -/
+theorem body_get_transitions_info (dst : Str → Bool) (trs : List Tr) :
+    Bodies.transitionsInfoP dst trs = Bodies.infoView (infoGo dst [] trs) :=
+  Bodies.transitionsInfoP_eq dst trs
 
 end ICal.C12
